@@ -113,6 +113,24 @@ def run_cases(args):
             b = bytearray(orig); b[len(b) // 2] ^= 0x10; p.write_bytes(bytes(b)); os.utime(p, ns=(st.st_atime_ns, st.st_mtime_ns))
             res["faults"].append({"file": rel, "fkind": "bitflip-inplace-mtime-kept", "verdict": verdict(root), "file_kind": "shard"})
             p.write_bytes(orig); os.utime(p, ns=(st.st_atime_ns, st.st_mtime_ns))
+        # … and through one long-lived handle that has already verified the dataset successfully
+        for kind_ in ("shard", "list"):
+            cands = [r for r, k in files if k == kind_]
+            if not cands: continue
+            rel = rng.choice(cands); p = root / rel
+            st = p.stat(); orig = p.read_bytes()
+            try:
+                h = Dataset(root); h.check(show_progressbar=False)
+                b = bytearray(orig); b[len(b) // 2] ^= 0x04; p.write_bytes(bytes(b)); os.utime(p, ns=(st.st_atime_ns, st.st_mtime_ns))
+                try:
+                    h.check(show_progressbar=False); v = "pass"
+                except Exception as e:  # noqa: BLE001
+                    v = f"{type(e).__name__}"
+            except Exception as e:  # noqa: BLE001
+                v = f"setup-failed:{type(e).__name__}: {str(e)[:80]}"
+            finally:
+                p.write_bytes(orig); os.utime(p, ns=(st.st_atime_ns, st.st_mtime_ns))
+            res["faults"].append({"file": rel, "fkind": "bitflip-inplace-same-handle", "verdict": v, "file_kind": kind_})
         out.append(res)
         shutil.rmtree(root, ignore_errors=True)
     return out
